@@ -985,6 +985,13 @@ func (r *c15Run) roundTrips(root reflect.Value) {
 	if !ok {
 		return
 	}
+	for _, y := range want {
+		// an entry stored under an unset key (known finding append-accepts-unset-key) cannot be
+		// rendered at all; its downstream effects are not separate violations
+		if strings.Contains(y, "<unset>") {
+			return
+		}
+	}
 	check := func(kind string, got []string, ok bool) {
 		r.sum.OracleRuns++
 		r.sum.count("roundtrip", kind)
